@@ -1,5 +1,5 @@
 /- Assembly: every concrete step commutes with the abstraction; invariants hold in every reachable state. -/
-import AeicProofs.Lemmas.StoreFlight
+import AeicProofs.Lemmas.StoreSave
 
 namespace Aeic.Store
 
@@ -14,7 +14,11 @@ theorem absW_frame (w : World) (s s' : Sess) (hs : w.sess = some s) (hsi : SessI
 
 theorem WInv_frame (w : World) (s s' : Sess) (hw : WInv w) (hs : w.sess = some s)
     (hinv : SessInv w.disk s') (hfr : Frame s s') : WInv ⟨w.disk, some s'⟩ := by
-  refine ⟨hw.disk, ?_, ?_⟩
+  refine ⟨hw.disk, ?_, ?_, ?_⟩
+  rotate_left 2
+  · have h0 : MemStale ⟨w.disk, some s⟩ := by
+      intro t ht; cases ht; exact hw.memStale s hs
+    exact h0.frame (fun hm => ((hw.sess s hs).memShape hm).1) hfr
   · intro t ht; cases ht; exact hinv
   · intro hx hst
     apply hw.index hx
@@ -127,6 +131,12 @@ theorem step_spec (w : World) (op : Op) (hw : WInv w) :
     | none => simp [step, specStep, hs, absW, hw]
     | some s =>
       have := getFlight_spec w s id hw hs
+      simpa [step, hs] using this
+  | save =>
+    cases hs : w.sess with
+    | none => simp [step, specStep, hs, absW, hw]
+    | some s =>
+      have := save_spec w s hw hs
       simpa [step, hs] using this
 
 /-- every reachable state satisfies the invariant -/
